@@ -41,8 +41,8 @@ def normalized_lines(doc):
             indents.append(k)
     m = min(indents) if indents else 0
     if m > 0:
-        s = '\n'.join(ln[m:] for ln in s.splitlines())
-    return s.splitlines()
+        s = '\n'.join(ln[m:] for ln in common.srclines(s))
+    return common.srclines(s)
 
 
 def part_lines(item):
